@@ -352,12 +352,16 @@ def gen_iface(d, name, version):
     for en in d.subset(ENUMNAMES, 0, 3):
         bitfield = d.chance(0.5)
         entries = []
+        vals_so_far = []
         names = d.subset(ENTRYNAMES, 1, 6)
         for n in names:
             if bitfield:
                 v = d.choice([0, 1, 2, 4, 8, 16, 3, 6, 0x80000000]) if d.chance(0.9) else d.int(0, 255)
             else:
                 v = d.choice([0, 1, 2, 3, 4, 5, 272, 273]) if d.chance(0.8) else d.int(0, 1000)
+            if entries and d.chance(0.25):
+                v = int(d.choice(vals_so_far))       # a second name for a value already named (alias entries)
+            vals_so_far.append(v)
             entries.append([n, gen_literal(d, v)])
         enums.append(dict(name=en, bitfield=bitfield, entries=entries))
     msgs = []
@@ -373,6 +377,8 @@ def gen_iface(d, name, version):
             if t in ('int', 'uint') and d.chance(0.6):
                 if d.chance(0.3):
                     a['enum'] = d.choice(IFACES) + '.' + d.choice(ENUMNAMES)
+                elif enums and d.chance(0.6):
+                    a['enum'] = d.choice(enums)['name']      # one this description does define
                 else:
                     a['enum'] = d.choice(ENUMNAMES)
             args.append(a)
